@@ -415,6 +415,53 @@ theorem C13_limits_period_reset (cfg : Cfg) (hs : Hashes) (s : St) (h : Inv cfg 
   obtain ⟨-, -, -, -, -, -, -, -, -, e⟩ := beginBlock_spec h dh dt
   exact e d
 
+/-- The period clock, per asset independently.  With `Δ = new block time − previous block time` (real time),
+    the begin blocker turns the record of asset `d` into `resetSupply a record Δ` — a function of that asset's
+    own params and counters only (no other asset's elapsed time enters) — and stores the new block time as
+    previous block time.  Hence: while the asset is time-limited and its own accumulated real time
+    `elapsed + Δ` is still below its own period, the counter advances by exactly `Δ` and the period's
+    time-limited current supply is kept; the allowance is reset (time-limited current ← 0, elapsed ← 0) only
+    when the asset is not time-limited or a full period of real time has elapsed since its previous reset. -/
+theorem C13_period_reset_only_after_period (cfg : Cfg) (hs : Hashes) (s : St) (h : Inv cfg hs s)
+    (hn : (denoms s.assets).Nodup) (dh : Nat) (dt : Int) (d : Denom) (a : Asset)
+    (ha : getAsset s.assets d = some a) :
+    (beginBlock hs s dh dt).supply d = resetSupply a (s.supply d) (s.time + dt - s.prevTime) ∧
+    (beginBlock hs s dh dt).prevTime = s.time + dt ∧ (beginBlock hs s dh dt).time = s.time + dt ∧
+    (a.timeLimited = true → (s.supply d).elapsed + (s.time + dt - s.prevTime) < a.period →
+      ((beginBlock hs s dh dt).supply d).elapsed = (s.supply d).elapsed + (s.time + dt - s.prevTime) ∧
+      ((beginBlock hs s dh dt).supply d).tlCurrent = (s.supply d).tlCurrent) ∧
+    (((beginBlock hs s dh dt).supply d).tlCurrent ≠ (s.supply d).tlCurrent ∨
+     ((beginBlock hs s dh dt).supply d).elapsed ≠ (s.supply d).elapsed + (s.time + dt - s.prevTime) →
+      (a.timeLimited = false ∨ a.period ≤ (s.supply d).elapsed + (s.time + dt - s.prevTime)) ∧
+      ((beginBlock hs s dh dt).supply d).elapsed = 0 ∧ ((beginBlock hs s dh dt).supply d).tlCurrent = 0) := by
+  obtain ⟨e1, e2, e3⟩ := beginBlock_period h hn dh dt d a ha
+  refine ⟨e1, e2, e3, ?_, ?_⟩
+  · intro htl hlt
+    rw [e1]; unfold resetSupply
+    simp only [htl, hlt, and_self, ite_true]
+  · intro hne
+    rw [e1] at hne ⊢
+    unfold resetSupply at hne ⊢
+    by_cases hc : a.timeLimited = true ∧ (s.supply d).elapsed + (s.time + dt - s.prevTime) < a.period
+    · simp only [hc, and_self, ite_true] at hne
+      rcases hne with hne | hne <;> exact absurd rfl hne
+    · simp only [hc, ite_false, and_self, and_true]
+      cases htl : a.timeLimited with
+      | false => exact Or.inl rfl
+      | true =>
+        right
+        have : ¬ (s.supply d).elapsed + (s.time + dt - s.prevTime) < a.period := fun hlt => hc ⟨htl, hlt⟩
+        omega
+
+/-- Nothing but the begin blocker touches the period clock: create, claim, refund and limit changes leave every
+    asset's elapsed time, the previous block time and the block time alone.  With the theorem above: an
+    asset's elapsed counter is exactly the real time between blocks accumulated since its own last reset. -/
+theorem C13_period_clock_only_begin_block (cfg : Cfg) (hs : Hashes) (s : St) (h : Inv cfg hs s) (op : Op)
+    (hnb : ∀ dh dt, op ≠ .beginBlock dh dt) (d : Denom) :
+    ((step cfg hs s op).supply d).elapsed = (s.supply d).elapsed ∧
+    (step cfg hs s op).prevTime = s.prevTime ∧ (step cfg hs s op).time = s.time :=
+  clock_step h op hnb d
+
 /-! ## Non-vacuity: a concrete history that exercises every transition -/
 
 example : Inv exCfg exHs exGenesis :=
@@ -451,6 +498,7 @@ example : (findSwap (run exCfg exHs exGenesis [exOp1, exOp2, exOp3]).swaps exId3
 example : ((run exCfg exHs exGenesis [exOp1, exOp2, exOp3]).bal 0 0, (run exCfg exHs exGenesis [exOp1, exOp2, exOp3]).bal 3 0,
     (run exCfg exHs exGenesis [exOp1, exOp2, exOp3]).bankSupply 0) = (50, 50, 100) := by decide
 example : DeputyInv exGenesis := by intro sw hm; cases hm
+example : (denoms exGenesis.assets).Nodup := by decide
 example : LimInv exGenesis := by
   intro d a ha
   rw [exAssets d a ha]
